@@ -117,6 +117,19 @@ class TxIds(Family):
                 raise Viol('%s has_witness()' % what, has, t.has_witness())
             objs.append(t)
         a, b = objs
+        # a computation that fails on this very object (an output value outside int64), the field put back, and the identifiers
+        # asked for again: they are those of the restored fields, witness included
+        if b.vout and not isinstance(b.vout, tuple):
+            keep = b.vout[0].nValue
+            b.vout[0].nValue = 1 << 63
+            for fn in (b.GetTxid, b.GetHash, b.serialize):
+                try:
+                    fn()
+                except Exception:  # noqa
+                    pass
+            b.vout[0].nValue = keep
+            if b.GetTxid() != txid or b.GetHash() != wtxid or b.has_witness() != has or b.serialize() != W.encode_tx(m):
+                raise Viol('mutable transaction after a failed computation (output value 2^63) and restoring the field: identifiers / witness are not those of its fields', (txid.hex(), wtxid.hex(), has), (b.GetTxid().hex(), b.GetHash().hex(), b.has_witness()))
 
         def snapcheck(mm, when):
             # an immutable snapshot taken at this moment reports the identifiers of the fields at this moment - also when
